@@ -41,6 +41,24 @@ notes_strength = {
  "agent1-C15": "strengthened: undefined names in operands that cannot change the value (0 && x, 1 || x, 0 * x) added to C15 (C05 caught it as it stood)",
  "agent1-C16": "strengthened: sizes >= 2^32 whose low bits look harmless added to C16's structured workload",
  "agent1-C17": "strengthened: failing programs with well-filled tables added to C17's pool (error text enumerating a hash table)",
+ "agent2-C01": "strengthened: instruction streams interleaving different forms (state carried from one instruction to the next) added to C01; C17 also caught it",
+ "agent2-C02": "strengthened: the same programs with runs of lines moved into macros (via-macro variants) added to C02",
+ "agent2-C03": "strengthened: relative branches inside macro bodies (called several times at different addresses) added to C03",
+ "agent2-C04": "strengthened: operand-range cases repeated under every device of the table (device sweep) added to C04",
+ "agent2-C05": "strengthened: every expression case also evaluated as a macro argument and inside a macro body in C05",
+ "agent2-C06": "strengthened: data directives reached through macro expansion added to C06",
+ "agent2-C07": "strengthened: images whose records repeat the same length pattern several times in a row added to C07",
+ "agent2-C08": "strengthened: conditional chains hosted in macro bodies added to C08; C09 also caught it",
+ "agent2-C09": "strengthened: macros whose bodies carry state (.set counters, .def/.undef, conditionals on arguments), called repeatedly, added to C09",
+ "agent2-C10": "caught as the check stood",
+ "agent2-C11": "strengthened on reading the change's description, before the first evaluation: after the missing-file build the file is put back and the same tree rebuilt on the same thread",
+ "agent2-C12": "strengthened: missed at first (exit 0); C12 now also selects each device from a called macro, a macro called by a macro, a taken .if and the .else of an untaken .ifdef",
+ "agent2-C13": "strengthened on reading the change's description, before the first evaluation: non-empty data/EEPROM segments placed before the code under test in C13's sequences",
+ "agent2-C14": "strengthened on reading the change's description, before the first evaluation: macro bodies with lines that differ only in the letter case of a string or character literal (C14 base programs and C09 templates)",
+ "agent2-C15": "caught as the check stood (duplicate inserted in another segment than the first definition); an explicit step appending the duplicate behind .org/.dseg/.eseg/.cseg added afterwards for margin",
+ "agent2-C16": "strengthened on reading the change's description, before the first evaluation: self- and mutually recursive macros whose recursive call sits behind a segment switch or .org",
+ "agent2-C17": "caught as the check stood",
+ "agent2-C18": "strengthened: sources whose images exceed 1 MiB added to C18 (and C07)",
 }
 for f in sorted(glob.glob(f"{ROOT}/seeded/*/meta.json")):
     m = json.load(open(f))
